@@ -522,7 +522,7 @@ class Collada(object):
                 if o.xmlnode not in node:
                     node.append(o.xmlnode)
             xmlnodes = [o.xmlnode for o in arr]
-            for n in node:
+            for n in list(node):
                 if n not in xmlnodes:
                     node.remove(n)
 
